@@ -327,6 +327,129 @@ pub fn exec(t: &[&str]) -> String {
 
 // ---------------------------------------------------------------------------------- repository level
 
+/// The packs listed by the index files (not marked for deletion): `(id, is a tree pack, size)`, read through an uncached handle.
+fn indexed_packs(h: &crate::repo::RepoHandle, opts: &rustic_core::RepositoryOptions) -> Option<Vec<(Id, bool, u32)>> {
+    use rustic_core::repofile::{BlobType, IndexFile};
+    let repo = h.open_with(opts).ok()?;
+    let mut v = Vec::new();
+    for item in repo.stream_files::<IndexFile>().ok()? {
+        let (_, f) = item.ok()?;
+        for p in &f.packs {
+            v.push((*p.id, p.blob_type() == BlobType::Tree, p.pack_size()));
+        }
+    }
+    v.sort();
+    v.dedup();
+    Some(v)
+}
+
+/// (re)places whatever non-directory sits at `path` by a regular file holding `data`
+fn put_file(path: &Path, data: &[u8]) {
+    if let Some(par) = path.parent() {
+        _ = std::fs::create_dir_all(par);
+    }
+    if path.is_symlink() || path.is_file() {
+        _ = std::fs::remove_file(path);
+    }
+    if !path.is_dir() {
+        _ = std::fs::write(path, data);
+    }
+}
+
+/// Plants files at the cache locations `<root>/data/<xx>/<id>` of packs of the repository.
+/// `tree`: foreign / overwritten files of ANOTHER SIZE at the locations of tree packs, and a stale pack the repository does not have — what
+/// only `check` cleans up (its pack clean-up runs with and without `trust_cache`), so this is planted right before a `check`.
+/// `data`: foreign files (any size, the pack's own size included) at the locations of DATA packs — those are never cached
+/// (`cacheable = false`), no operation may ever look at them.
+fn plant_packs(rng: &mut Rng, root: &Path, tmp: &Path, n_stash: &mut usize, be: &MemBackend, packs: &[(Id, bool, u32)], tree: bool, data: bool) {
+    let at = |id: &Id| {
+        let hex_id = id.to_hex();
+        root.join("data").join(&hex_id[0..2]).join(hex_id.as_str())
+    };
+    for (id, is_tree, size) in packs {
+        let size = *size as usize;
+        let path = at(id);
+        if path.is_dir() && !path.is_symlink() {
+            continue;
+        }
+        if *is_tree && tree && rng.chance(2, 3) {
+            match rng.below(5) {
+                0 => put_file(&path, &vec![0u8; size + 7]),
+                1 => {
+                    let n = size + 1 + rng.below(9) as usize;
+                    put_file(&path, &rng.bytes(n));
+                }
+                2 if size > 1 => {
+                    let n = size - 1 - rng.below(size.min(10) as u64 - 1) as usize;
+                    put_file(&path, &rng.bytes(n));
+                }
+                3 => {
+                    // the pack itself, extended
+                    let mut d = be.get(FileType::Pack, id).map(|b| b.to_vec()).unwrap_or_default();
+                    d.extend_from_slice(b"garbage");
+                    put_file(&path, &d);
+                }
+                _ => {
+                    // a symlink to a foreign file of another size
+                    *n_stash += 1;
+                    let target = tmp.join(format!("stash{n_stash}"));
+                    put_file(&path, b"");
+                    if std::fs::write(&target, rng.bytes(size + 3)).is_ok() && std::fs::remove_file(&path).is_ok() {
+                        _ = std::os::unix::fs::symlink(&target, &path);
+                    }
+                }
+            }
+        }
+        if !*is_tree && data && rng.chance(2, 3) {
+            match rng.below(4) {
+                0 => put_file(&path, &vec![0u8; size]),
+                1 => put_file(&path, &rng.bytes(size)),
+                2 => {
+                    let n = size + 1 + rng.below(9) as usize;
+                    put_file(&path, &rng.bytes(n));
+                }
+                _ => {
+                    *n_stash += 1;
+                    let target = tmp.join(format!("stash{n_stash}"));
+                    put_file(&path, b"");
+                    if std::fs::write(&target, vec![0u8; size]).is_ok() && std::fs::remove_file(&path).is_ok() {
+                        _ = std::os::unix::fs::symlink(&target, &path);
+                    }
+                }
+            }
+        }
+    }
+    if tree && rng.chance(1, 2) {
+        // a stale pack: "another process" pruned it from the repository
+        let id: Id = hex::encode(rng.bytes(32)).parse().unwrap();
+        put_file(&at(&id), &rng.bytes(40));
+    }
+}
+
+/// After a `check` through the cached handle: a properly placed regular file (or symlink to one) in `<root>/data` that is not a tree pack
+/// of the index, or has another size than the index says (model: `checkCleanup`, theorem `no_stale_pack_after_check`).
+fn bad_cached_pack(root: &Path, packs: &[(Id, bool, u32)]) -> Option<&'static str> {
+    for sub in std::fs::read_dir(root.join("data")).into_iter().flatten().flatten() {
+        if !sub.path().is_dir() {
+            continue;
+        }
+        for e in std::fs::read_dir(sub.path()).into_iter().flatten().flatten() {
+            let name = e.file_name().to_string_lossy().to_string();
+            let Some(id) = id_of(&name) else { continue };
+            if !e.path().is_file() || sub.file_name().to_string_lossy() != name[..2] {
+                continue;
+            }
+            let sz = std::fs::metadata(e.path()).map(|m| m.len()).unwrap_or(0);
+            match packs.iter().find(|(i, _, _)| *i == id) {
+                Some((_, true, n)) if u64::from(*n) == sz => {}
+                Some((_, true, _)) => return Some("wrong-size-pack-cached-after-check"),
+                _ => return Some("stale-or-data-pack-cached-after-check"),
+            }
+        }
+    }
+    None
+}
+
 /// Histories of backup / forget / prune / check alternately through a cached and an uncached handle on one
 /// backend, with the cache directory damaged in between.  Observation `ok <n snapshots>`; every divergence from
 /// what an uncached repository must show is an `oracle-fail`.
@@ -338,7 +461,10 @@ pub fn repo_level(seed: u64) -> String {
     let tmp = tempfile::tempdir().expect("tempdir");
     let cdir = tmp.path().join("cache");
     let be = MemBackend::new();
-    let Ok((h, _)) = RepoHandle::init(be.clone(), None, &ConfigOptions::default()) else { return "err:init".into() };
+    let Ok((h, repo0)) = RepoHandle::init(be.clone(), None, &ConfigOptions::default()) else { return "err:init".into() };
+    // `<cache dir>/<repository id>`: what `Cache::new` uses
+    let croot = cdir.join(repo0.config().id.to_hex().as_str());
+    drop(repo0);
     let cached_opts = RepositoryOptions::default().cache_dir(cdir.clone());
     let uncached_opts = RepositoryOptions::default().no_cache(true);
     let opts_of = |cached: bool| if cached { cached_opts.clone() } else { uncached_opts.clone() };
@@ -419,6 +545,9 @@ pub fn repo_level(seed: u64) -> String {
                 }
             }
         }
+        // files at the cache locations of DATA packs (never cached): no command may look at them
+        let Some(packs) = indexed_packs(&h, &uncached_opts) else { return format!("oracle-fail:index-files-step{step}") };
+        plant_packs(&mut rng, &croot, tmp.path(), &mut n_stash, &be, &packs, false, true);
         let Ok(repo) = h.open_with(&opts_of(cached)) else { return format!("oracle-fail:open-step{step}-cached{cached}") };
         match rng.below(4) {
             0 | 1 => {
@@ -466,18 +595,43 @@ pub fn repo_level(seed: u64) -> String {
                 }
             }
         }
-        // every snapshot must read back identically through both handles, check must be clean through both
-        for c in [true, false] {
-            let Ok(repo) = h.open_with(&opts_of(c)) else { return format!("oracle-fail:reopen-step{step}-cached{c}") };
-            let Ok(res) = repo.check(CheckOptions::default().read_data(true)) else { return format!("oracle-fail:check-failed-step{step}-cached{c}") };
-            if std::env::var("C19_DEBUG").is_ok() {
-                for (l, m) in &res.0 {
-                    eprintln!("check[{c}] {l:?}: {}", format!("{m:?}").chars().take(200).collect::<String>());
+        // `check` with trust_cache on / off and read_data on / off through both handles: same findings, none of them an error.  Before
+        // every pair of runs wrong-sized foreign / overwritten tree packs, a stale pack and files at data-pack locations are planted in the
+        // cache (the first `check` through the cached handle cleans them up again — with and without trust_cache).
+        let Some(packs) = indexed_packs(&h, &uncached_opts) else { return format!("oracle-fail:index-files-step{step}") };
+        let mut combos = [(false, true), (true, true), (true, false), (false, false)];
+        let r = rng.below(4) as usize;
+        combos.rotate_left(r);
+        for (trust, rd) in combos {
+            plant_packs(&mut rng, &croot, tmp.path(), &mut n_stash, &be, &packs, true, true);
+            let mut findings: Vec<Vec<String>> = Vec::new();
+            for c in [true, false] {
+                let tag = format!("step{step}-cached{c}-trust{}-rd{}", u8::from(trust), u8::from(rd));
+                let Ok(repo) = h.open_with(&opts_of(c)) else { return format!("oracle-fail:reopen-{tag}") };
+                let Ok(res) = repo.check(CheckOptions::default().trust_cache(trust).read_data(rd)) else { return format!("oracle-fail:check-failed-{tag}") };
+                if std::env::var("C19_DEBUG").is_ok() {
+                    for (l, m) in &res.0 {
+                        eprintln!("check[{tag}] {l:?}: {}", format!("{m:?}").chars().take(200).collect::<String>());
+                    }
+                }
+                if res.0.iter().any(|(l, _)| format!("{l:?}") == "Error") {
+                    return format!("oracle-fail:check-errors-{tag}");
+                }
+                let mut f: Vec<String> = res.0.iter().map(|(l, m)| format!("{l:?}:{m:?}")).collect();
+                f.sort();
+                findings.push(f);
+                if c && let Some(what) = bad_cached_pack(&croot, &packs) {
+                    return format!("oracle-fail:{what}-{tag}");
                 }
             }
-            if res.0.iter().any(|(l, _)| format!("{l:?}") == "Error") {
-                return format!("oracle-fail:check-errors-step{step}-cached{c}");
+            if findings[0] != findings[1] {
+                return format!("oracle-fail:check-findings-differ-step{step}-trust{}-rd{}", u8::from(trust), u8::from(rd));
             }
+        }
+        // every snapshot must read back identically through both handles — whatever lies at the cache locations of the data packs
+        plant_packs(&mut rng, &croot, tmp.path(), &mut n_stash, &be, &packs, false, true);
+        for c in [true, false] {
+            let Ok(repo) = h.open_with(&opts_of(c)) else { return format!("oracle-fail:reopen-step{step}-cached{c}") };
             let Ok(snaps) = repo.get_all_snapshots() else { return format!("oracle-fail:snapshots-step{step}-cached{c}") };
             if snaps.len() != sources.len() {
                 return format!("oracle-fail:snapshot-count-step{step}-cached{c}");
